@@ -4,7 +4,7 @@ import warnings
 from core import Case, enc_b, enc_s, enc_header, psec
 from props.tr31util import VERS, rb, rs, rand_blocks, make_header, header_tuple, unwrap_case, wrap_case, UNWRAP_TOK, tr31, Session
 
-OBLIGATIONS = ["Psec.Props.C03.bMac_eq_tag", "Psec.Props.C03.dMac_eq_tag", "Psec.Props.C03.cMac_eq_tag", "Psec.Props.C03.deriveB_eq_kdf", "Psec.Props.C03.deriveD_eq_kdf", "Psec.Props.C03.deriveAC_eq_variant", "Psec.Props.C03.subkeys_eq", "Psec.Props.C03.encodeAscii_eq", "Psec.Props.C03.wrap_is_spec_valid", "Psec.Props.C03.wrap_opened_alike", "Psec.Tr31.specParse_all", "Psec.Tr31.specCbcDec_eq", "Psec.Props.C03.spec_valid_unwraps", "Psec.Tr31.unwrap_parts", "Psec.Tr31.blocksLoad_spec", "Psec.Tr31.disp_B", "Psec.Tr31.disp_D", "Psec.Tr31.disp_AC"]
+OBLIGATIONS = ["Psec.Props.C03.bMac_eq_tag", "Psec.Props.C03.dMac_eq_tag", "Psec.Props.C03.cMac_eq_tag", "Psec.Props.C03.deriveB_eq_kdf", "Psec.Props.C03.deriveD_eq_kdf", "Psec.Props.C03.deriveAC_eq_variant", "Psec.Props.C03.subkeys_eq", "Psec.Props.C03.encodeAscii_eq", "Psec.Props.C03.wrap_is_spec_valid", "Psec.Props.C03.wrap_opened_alike", "Psec.Tr31.specParse_all", "Psec.Tr31.specCbcDec_eq", "Psec.Props.C03.spec_valid_unwraps", "Psec.Tr31.unwrap_parts", "Psec.Tr31.blocksLoad_spec", "Psec.Tr31.disp_B", "Psec.Tr31.disp_D", "Psec.Tr31.disp_AC", "Psec.Props.C03.unwrap_eq_spec", "Psec.Props.C03.accepted_is_spec_valid", "Psec.Tr31.loadLoop_parseBlocks", "Psec.Tr31.dispatch_iff", "Psec.Tr31.specUnwrap_some_iff", "Psec.Tr31.psec_to_spec", "Psec.Tr31.spec_to_psec"]
 THOROUGH_MODULES = ["PsecModel.Tests"]
 TRUSTED_BASE = ["Lean 4.33 kernel", "Spec/TR31.lean + Spec/CMAC.lean are my reading of TR-31:2018 and SP 800-38B (validated against the repository's vectors and OpenSSL's CMAC, not proved)",
                 "correspondence harness and compiled driver"]
@@ -110,6 +110,42 @@ def generate(rng, tier, seed):
                     want = "ok\t" + enc_header(se.kb.header) + "\t" + enc_b(key)
                     c.pred("block wrapped after a version switch on the same object is valid per the specification",
                            lambda rep, i=i, want=want: None if rep[i] == want else f"specification says {rep[i][:100]}")
+            yield c
+        # the refinement theorem against the real code: on canonical strings (no whitespace after the fixed part, no repeated
+        # block id, no pad-block id in another letter case) psec's verdict and result equal the specification's verifier's
+        from props.c15 import mutations
+        from props.c12 import parse_blocks
+        from props.tr31util import genuine
+        kbpk_g, h_g, key_g, kb_g = genuine(rng, ver, nblocks=rng.choice([0, 1, 2]))
+        muts = list(mutations(rng, kb_g, ver))
+        rng.shuffle(muts)
+        for kind, ms in muts[: (60 if tier == "quick" else 600)]:
+            if any(ch.isspace() or ord(ch) in (0x1c, 0x1d, 0x1e, 0x1f, 0x85) for ch in ms[16:]):
+                continue
+            canonical = True
+            if len(ms) >= 16 and ms[12:14].isascii() and ms[12:14].isdigit():
+                try:
+                    pr = parse_blocks(ms[16:], int(ms[12:14]))
+                except ValueError:
+                    pr = None
+                if pr:
+                    ids = [b for b, _ in pr[0]]
+                    nonpb = [b for b in ids if b != "PB"]
+                    canonical = len(set(nonpb)) == len(nonpb) and not any(b.upper() == "PB" and b != "PB" for b in ids)
+            if not canonical:
+                continue
+            c = Case(f"{ver}:psec-vs-spec:{kind}", {})
+            r = unwrap_case(c, kbpk_g, ms)
+            i = c.line(f"spec.tr31_unwrap\t{enc_b(kbpk_g)}\t{enc_s(ms)}")
+
+            def p(rep, r=r, i=i):
+                want = ("ok\t" + UNWRAP_TOK(r.value)) if r.ok else None
+                if r.ok and rep[i] != want:
+                    return f"psec accepts a canonical string the specification's verifier judges differently: {rep[i][:80]}"
+                if not r.ok and rep[i].startswith("ok"):
+                    return "the specification's verifier accepts a canonical string psec rejects"
+            c.pred("psec unwrap = specification verifier on canonical strings", p)
+            c.nontrivial = True
             yield c
         for ksize in ksizes:
             for _ in range(6 * reps):
